@@ -127,6 +127,19 @@ def spec_save(has_var, ndim, masks, names, edges, coord_arg, dim):
     return ('write', c)
 
 
+class _Handle(core.MockBase):
+    """what a stand-in `open` returns: a context manager that is not the caller's target"""
+
+    def __init__(self, a, k):
+        self.a, self.k = a, k
+
+    def __enter__(self):
+        return self
+
+    def __exit__(self, *e):
+        return False
+
+
 def save_contract(chk, mod):
     chk.function(MOD, 'save_xye')
     chk.function(MOD, '_deduce_coord')
@@ -139,6 +152,7 @@ def save_contract(chk, mod):
             n += 1
             npm = NP()
             mod.np = npm
+            mod.open = lambda *a, **k: _Handle(a, k)
             want = spec_save(has_var, ndim, masks, list(names), set(edges), coord_arg, dim)
             try:
                 mod.save_xye('FILE', DA(has_var, ndim, masks, names, edges, dim), coord=coord_arg, header='HDR')
@@ -149,6 +163,10 @@ def save_contract(chk, mod):
                 ok = want == got and not npm.calls          # refused BEFORE any output
             else:
                 call = npm.calls[0] if len(npm.calls) == 1 else None
+                if call is not None and call[1] != 'FILE':
+                    # the function hands numpy something else than the caller's target (e.g. a file it opened itself): what that does
+                    # to the round trip (compression by suffix, encoding, newlines) is numpy/io behaviour -- the real round trips decide
+                    raise core.Unsupported(f'save_xye does not pass its target to numpy.savetxt unchanged (got {type(call[1]).__name__})')
                 ok = (want[0] == 'write' and call is not None and call[1] == 'FILE'
                       and call[2] == ('columns', (('values-of-coord', want[1]), ('VALUES',), ('sqrt', ('VARIANCES',))))
                       and call[3] == {'delimiter': ' ', 'header': 'HDR'})
@@ -214,6 +232,11 @@ def load_contract(chk, mod):
             r = mod.load_xye('FILE', dim='d', unit='U', coord_unit='CU', coord=None if ndim == 2 else 'cc')
             tag = 'reshaped' if ndim == 1 else 'loaded'
             cname = 'cc' if ndim == 1 else 'd'
+            fname_, kw_ = rec['loadtxt']
+            if fname_ != 'FILE' or set(kw_) - {'delimiter', 'unpack'}:
+                # other arguments to numpy.loadtxt (encoding, comments, converters, a file opened by the function, ...): their effect on
+                # the round trip is numpy behaviour -- the real round trips decide, this clause does not apply
+                raise core.Unsupported(f'load_xye calls numpy.loadtxt with {sorted(kw_)} on {type(fname_).__name__}')
             ok = (rec['loadtxt'] == ('FILE', {'delimiter': ' ', 'unpack': True}) and (('reshape' in rec) == (ndim == 1))
                   and (ndim == 2 or rec['reshape'] == (slice(None), 'NEWAXIS'))
                   and r[0] == 'DataArray' and r[1][0] == 'array' and r[1][1]['dims'] == ['d'] and r[1][1]['unit'] == 'U'
@@ -269,7 +292,14 @@ def roundtrip_failures(n, seed, limit=3):
             if i % 3 == 0:
                 d = tempfile.mkdtemp(prefix='xye', dir=os.path.join(os.path.dirname(os.path.dirname(os.path.abspath(__file__))), '.work')
                                      if os.path.isdir(os.path.join(os.path.dirname(os.path.dirname(os.path.abspath(__file__))), '.work')) else None)
-                path = os.path.join(d, 'f.xye')
+                # file names as numpy's text I/O treats them: plain, with a compression suffix (gzip / bz2 / lzma chosen by the name on
+                # both sides), odd characters; str and pathlib.Path
+                fname = ['f.xye', 'run.xye.gz', 'r u n.dat', 'data.xye.bz2', 'no_extension', 'x.xye.xz', 'ünï.xye'][(i // 3) % 7]
+                path = os.path.join(d, fname)
+                desc['target'] = f'path {fname!r}' + (' (pathlib.Path)' if i % 6 == 0 else '')
+                if i % 6 == 0:
+                    import pathlib
+                    path = pathlib.Path(path)
                 xye.save_xye(path, da, header=hdr) if i % 2 else xye.save_xye(path, da)
                 back = xye.load_xye(path, dim='x', unit='counts', coord_unit='m')
                 os.unlink(path)
